@@ -79,6 +79,7 @@ type TermCtx struct {
 	fresh      map[string]int
 	Axioms     []*Term // facts about the initial heap, assumed in every obligation
 	bridgeSeen map[int]bool
+	selMemo    map[[2]int]*Term
 }
 
 type UFDecl struct {
@@ -88,7 +89,7 @@ type UFDecl struct {
 }
 
 func NewTermCtx() *TermCtx {
-	return &TermCtx{tab: map[string]*Term{}, decls: map[string]*Term{}, ufs: map[string]*UFDecl{}, fresh: map[string]int{}, bridgeSeen: map[int]bool{}}
+	return &TermCtx{tab: map[string]*Term{}, decls: map[string]*Term{}, ufs: map[string]*UFDecl{}, fresh: map[string]int{}, bridgeSeen: map[int]bool{}, selMemo: map[[2]int]*Term{}}
 }
 
 func (c *TermCtx) mk(t *Term) *Term {
@@ -294,6 +295,11 @@ func (c *TermCtx) Or(as ...*Term) *Term {
 	}
 	if len(out) == 1 {
 		return out[0]
+	}
+	for _, x := range out {
+		if x.Op == "not" && seen[x.Args[0].id] {
+			return c.True()
+		}
 	}
 	return c.mk(&Term{Op: "or", Args: out, Sort: BoolSort})
 }
@@ -778,8 +784,20 @@ func (c *TermCtx) Select(arr, idx *Term) *Term {
 	if arr.Sort.Idx != idx.Sort {
 		panic(fmt.Sprintf("select index sort mismatch: %s vs %s", arr.Sort.Idx, idx.Sort))
 	}
+	if arr.Op == "ite" && idx.IsConst() {
+		key := [2]int{arr.id, idx.id}
+		if r, ok := c.selMemo[key]; ok {
+			return r
+		}
+		r := c.Ite(arr.Args[0], c.Select(arr.Args[1], idx), c.Select(arr.Args[2], idx))
+		c.selMemo[key] = r
+		return r
+	}
 	a := arr
 	for {
+		if a.Op == "ite" && idx.IsConst() && a != arr {
+			return c.Select(a, idx)
+		}
 		if a.Op == "store" {
 			if a.Args[1] == idx {
 				return a.Args[2]
@@ -1208,7 +1226,7 @@ func (c *TermCtx) choosePatterns(q *Term) [][]*Term {
 		for _, a := range t.Args {
 			walk(a)
 		}
-		if (t.Op == "select" || t.Op == "app") && len(usesOwn(t)) > 0 {
+		if (t.Op == "select" || t.Op == "app") && len(usesOwn(t)) > 0 && !hasBoolStructure(t) {
 			// all free bound variables must be ours
 			ok := true
 			for _, f := range t.free {
@@ -1331,4 +1349,27 @@ func (c *TermCtx) choosePatterns(q *Term) [][]*Term {
 		out = append(out, mp)
 	}
 	return out
+}
+
+// hasBoolStructure: the term contains connectives / ite / comparisons (not allowed in patterns).
+func hasBoolStructure(t *Term) bool {
+	found := false
+	seen := map[int]bool{}
+	var walk func(t *Term)
+	walk = func(t *Term) {
+		if found || seen[t.id] {
+			return
+		}
+		seen[t.id] = true
+		switch t.Op {
+		case "ite", "not", "and", "or", "=>", "=", "<", "<=", "bvult", "bvule", "bvslt", "bvsle", "forall", "exists":
+			found = true
+			return
+		}
+		for _, a := range t.Args {
+			walk(a)
+		}
+	}
+	walk(t)
+	return found
 }
